@@ -492,8 +492,14 @@ func (act *activation) fixpoint(start *alt) *result {
 			}
 			for _, s := range b.Succs {
 				ek := edge{b.Index, s.Index}
-				if record && act.depth == 0 && idx[s] <= idx[b] && len(b.Instrs) > 0 {
-					// what holds whenever the entry function's loop goes round again
+				if record && act.depth <= 1 && idx[s] <= idx[b] && len(b.Instrs) > 0 {
+					// what holds whenever the entry function's loop goes round again ("backedge"); the loops of a
+					// function called directly by the entry function are recorded as "backedge1" (a loop of the
+					// entry function that was extracted into a helper), which rules consult only as a fall-back
+					kind := "backedge"
+					if act.depth == 1 {
+						kind = "backedge1"
+					}
 					pi := -1
 					for i, p := range s.Preds {
 						if p == b {
@@ -517,7 +523,7 @@ func (act *activation) fixpoint(start *alt) *result {
 							}
 							steps = append(steps, act.e.T.Mk("flagstep:"+phi.Comment, cur, act.val(o, phi.Edges[pi])))
 						}
-						act.events = append(act.events, &Event{Key: "backedge", Kind: "backedge", Instr: b.Instrs[len(b.Instrs)-1], Fn: fn, Atoms: o.atoms, Args: steps})
+						act.events = append(act.events, &Event{Key: kind, Kind: kind, Instr: b.Instrs[len(b.Instrs)-1], Fn: fn, Atoms: o.atoms, Args: steps})
 					}
 				}
 				edgeOut[ek] = act.e.join(edgeOut[ek], act.e.K)
@@ -1094,7 +1100,13 @@ func (act *activation) groupRets() []*ret {
 		rs := classes[k]
 		bound := e.K
 		if strings.Contains(k, "E:") {
+			// failing returns of a callee are merged into one class (the caller usually just forwards the
+			// error) — except for a helper called directly by the entry function, whose few failure causes
+			// stay apart: a block of the entry function extracted into a helper keeps its guards visible
 			bound = 1
+			if act.depth == 1 {
+				bound = e.K
+			}
 		}
 		out = append(out, e.joinRets(rs, bound, act.site)...)
 	}
